@@ -90,6 +90,15 @@ def mk_view(x, kind, p):
             return None
         m = np.random.RandomState(p).rand(n) > 0.5
         return x[m]
+    if kind == "chain_rows_rows":
+        # the intermediate view is garbage as soon as the expression is evaluated
+        return x[1:][: max(n - 2, 0)] if n >= 2 else None
+    if kind == "chain_T_row":
+        return x.T[p % x.shape[1]] if x.ndim == 2 and x.shape[1] else None
+    if kind == "chain_reshape_step":
+        return x.reshape(-1)[:: 2 + p % 2] if x.flags.c_contiguous else None
+    if kind == "chain_rows_col":
+        return x[p % 2 :][:, p % x.shape[1]] if x.ndim == 2 and x.shape[1] else None
     if kind == "copy":
         return x.copy()
     if kind == "swapaxes":
@@ -99,7 +108,7 @@ def mk_view(x, kind, p):
     raise ValueError(kind)
 
 
-VIEW_KINDS = ["rows", "step", "rev", "col", "row", "T", "reshape", "ravel", "viewT", "ellipsis", "newaxis", "squeeze", "mask_copy", "copy", "swapaxes"]
+VIEW_KINDS = ["rows", "step", "rev", "col", "row", "T", "reshape", "ravel", "viewT", "ellipsis", "newaxis", "squeeze", "mask_copy", "copy", "swapaxes", "chain_rows_rows", "chain_T_row", "chain_reshape_step", "chain_rows_col"]
 
 # ------------------------------------------------------------------ mutating routes
 
@@ -394,6 +403,38 @@ def r_setfield_like_real(x, rs):
     x.real[...] = _val(x, rs)
 
 
+def r_real_setter(x, rs):
+    # the attribute setter writes into x itself
+    x.real = _val(x, rs)
+
+
+def r_put_partial_fail(x, rs):
+    # an index list whose tail is out of range: numpy writes the head, then raises
+    if x.size == 0:
+        raise NotApplicable
+    x.put([0, x.size + 5], [_val(x, rs), _val(x, rs)])
+
+
+def r_np_put_partial_fail(x, rs):
+    if x.size == 0:
+        raise NotApplicable
+    np.put(x, [0, x.size + 5], [_val(x, rs), _val(x, rs)])
+
+
+def r_setitem_object_partial_fail(x, rs):
+    # an object array whose last element cannot be converted
+    if x.ndim == 0 or x.shape[0] < 2:
+        raise NotApplicable
+    x[np.array([0, 1])] = np.array([_val(x, rs), "not a number"], dtype=object).reshape((2,) + (1,) * (x.ndim - 1))
+
+
+def r_flat_held_across_hash(x, rs):
+    # the iterator is taken first, the hash is read, then the iterator is written through
+    it = x.flat
+    x.__hash__()
+    it[0] = _val(x, rs)
+
+
 class NotApplicable(Exception):
     pass
 
@@ -455,6 +496,11 @@ ROUTES = {
     "dot_out": r_dot_out,
     "take_out": r_take_out,
     "real_setitem": r_setfield_like_real,
+    "real_setter": r_real_setter,
+    "put_partial_fail": r_put_partial_fail,
+    "np_put_partial_fail": r_np_put_partial_fail,
+    "setitem_object_partial_fail": r_setitem_object_partial_fail,
+    "flat_held_across_hash": r_flat_held_across_hash,
 }
 ROUTE_NAMES = sorted(ROUTES)
 
@@ -661,6 +707,14 @@ def _mesh(case, ctx, full):
         F = rs0.randint(0, nv, (nf, 3)).astype(np.int64)
         m = trimesh.Trimesh(V.copy(), F.copy(), process=False)
         held = {}
+        # mutations not yet followed by a hash read that came out right, per stored array: a stale hash is attributed
+        # to the OLDEST of them (a later, innocent mutation of the other array must not take the blame)
+        pending = {"v": [], "f": []}
+
+        def blame(which="vf"):
+            c = [(i, lab) for w in which for i, lab in pending[w]]
+            return min(c)[1] if c else held.get("last", "none")
+
         others = []  # further holders built on the very same array objects
         nontrivial = False
         cls = []
@@ -671,7 +725,9 @@ def _mesh(case, ctx, full):
                 want = _holder_fresh_hash(o)
                 who = "mesh" if k == 0 else f"sharing_{type(o).__name__}"
                 extra = "" if k == 0 else f"|holder={type(o).__name__}"
-                check(h == want, f"C02.mesh|stale|after={held.get('last', 'none')}{extra}", f"{where} {si}: hash({who}) {h} != fresh {want}; array-level reads since the edit: {held.get('array_reads', 0)}")
+                check(h == want, f"C02.mesh|stale|after={blame()}{extra}", f"{where} {si}: hash({who}) {h} != fresh {want}; array-level reads since the edit: {held.get('array_reads', 0)}")
+            pending["v"].clear()
+            pending["f"].clear()
 
         for si, step in enumerate(case["steps"]):
             op = step[0]
@@ -681,7 +737,8 @@ def _mesh(case, ctx, full):
                 if level == "array":
                     # reading the hash of one member must not hide the edit from the container
                     got, want = arr.__hash__(), fresh_hash(arr)
-                    check(got == want, f"C02.mesh|array_stale|after={held.get('last', 'none')}", f"step {si}: hash(array) {got} != fresh {want}")
+                    check(got == want, f"C02.mesh|array_stale|after={blame(step[1])}", f"step {si}: hash(array) {got} != fresh {want}")
+                    pending[step[1]].clear()
                     if not held.get("clean", True):
                         held["array_reads"] = held.get("array_reads", 0) + 1
                         cls.append("mesh:array_hash_read_between_edit_and_container_hash")
@@ -689,7 +746,7 @@ def _mesh(case, ctx, full):
                 if level == "store":
                     got = m._data.__hash__()
                     want = trimesh.Trimesh(np.array(m.vertices).copy(), np.array(m.faces).copy(), process=False)._data.__hash__()
-                    check(got == want, f"C02.mesh|store_stale|after={held.get('last', 'none')}", f"step {si}: hash(DataStore) {got} != fresh {want}")
+                    check(got == want, f"C02.mesh|store_stale|after={blame()}", f"step {si}: hash(DataStore) {got} != fresh {want}")
                 check_all(si, "step")
                 held["clean"] = True
                 held["array_reads"] = 0
@@ -751,10 +808,12 @@ def _mesh(case, ctx, full):
                     if tname == "old_handle":
                         cls.append("mesh:edit_through_handle_taken_before_reassign")
                 held["last"] = f"{step[2]}:{tname}"
+                pending[held.get("view_of", step[1]) if tname == "held_view" else step[1]].append((si, held["last"]))
                 held["clean"] = False
                 if full:
                     check_all(si, "step")
         check_all("end", "at")
+        pending["v"].clear(); pending["f"].clear()
         h = m.__hash__()
         # equal arrays hash equal; hash is stable under read-only use
         m2 = trimesh.Trimesh(m.vertices.copy(), m.faces.copy(), process=False)
@@ -878,7 +937,7 @@ def mesh_program(draw):
         if t == "hash":
             steps.append(["hash", w, draw(st.sampled_from(["mesh", "mesh", "array", "array", "store"]))])
         elif t == "hold":
-            steps.append(["hold", w, draw(st.sampled_from(["rows", "col", "row", "T", "reshape", "ravel", "ellipsis", "rev"])), draw(st.integers(0, 1000))])
+            steps.append(["hold", w, draw(st.sampled_from(["rows", "col", "row", "T", "reshape", "ravel", "ellipsis", "rev", "chain_rows_rows", "chain_T_row", "chain_reshape_step", "chain_rows_col"])), draw(st.integers(0, 1000))])
         elif t == "reassign":
             steps.append(["reassign", w, draw(st.sampled_from(["same", "iadd"]))])
         elif t == "share":
@@ -889,14 +948,14 @@ def mesh_program(draw):
 
 
 def table_cases():
-    views1 = ["rows", "col", "row", "T", "reshape", "ravel", "viewT", "ellipsis", "rev", "step", "newaxis", "swapaxes"]
+    views1 = ["rows", "col", "row", "T", "reshape", "ravel", "viewT", "ellipsis", "rev", "step", "newaxis", "swapaxes", "chain_rows_rows", "chain_T_row", "chain_reshape_step", "chain_rows_col"]
     for kind in sorted(KINDS):
         for route in ROUTE_NAMES:
             for hb in ([], [0], [1], [0, 1], [0, 1, 2], [2]):
                 yield {"kind": kind, "route": route, "views": [], "hash_before": hb}
                 for v1 in views1:
                     yield {"kind": kind, "route": route, "views": [v1], "hash_before": hb}
-                for v1, v2 in (("rows", "col"), ("T", "rows"), ("reshape", "rows"), ("rows", "row"), ("viewT", "rows"), ("rows", "rows"), ("ellipsis", "T")):
+                for v1, v2 in (("chain_rows_rows", "col"), ("chain_T_row", "rows"), ("rows", "col"), ("T", "rows"), ("reshape", "rows"), ("rows", "row"), ("viewT", "rows"), ("rows", "rows"), ("ellipsis", "T")):
                     yield {"kind": kind, "route": route, "views": [v1, v2], "hash_before": hb}
 
 
